@@ -242,6 +242,18 @@ def _exec(pv, cfg, ctx, sched):
                 ctx.probe('low_probability_action_taken')
             w = beta * As[:, a]
             beta = (w / w.sum()) @ Ns[:, a, pomdp.observation_index[st.observation]]
+            # the two halves of a step are separate public methods: asking for the action distribution of ANOTHER agent state
+            # (a planner walking the history tree, a second episode on the same controller) must not change the next step
+            try:
+                pol.action_dist(tr[(t + 2) % len(tr)].agentstate)
+                nag = np.asarray(pol.next_agentstate(st.agentstate, st.action, st.observation), dtype=float)
+            except (Violation, Inconclusive):
+                raise
+            except Exception as e:
+                raise Violation('exception', f"{tag}, step {t}: next_agentstate raised {type(e).__name__}: {e}")
+            ctx.check(np.allclose(nag, beta, atol=1e-9), 'history-probability',
+                      lambda: f"{tag}, step {t}: next_agentstate(agent state, action {a}, observation {o}) after an action_dist query for another agent state gives {nag.tolist()}, the controller defines {beta.tolist()}",
+                      key='history-probability/next-agentstate-after-unrelated-query')
     return ctx.result()
 
 
